@@ -36,13 +36,21 @@ var c10Alphabet = []c10Doc{
 var c10Exprs = []string{
 	".", ".a", "select(.a)", "length", "[.[]]", "(.a = 1)", "del(.a)", "(.a |= . + 1)", "(. as $d | $d)", `("a" | . |= . + "b")`, "(1 | . |= . + 1)", "(. as $i ireduce (0; . += 1))", `.a // "none"`, "to_json",
 	"document_index", "file_index", "filename", `{"doc": document_index, "file": file_index}`,
+	// documents that print nothing before documents that print (position-dependent and kind-dependent filters)
+	"select(document_index == 1)", "select(file_index == 1)", `select(kind == "scalar")`, `select(tag == "!!map") | .a`,
 }
+
+// c10JSONAlphabet: the same shapes as one JSON value each; a JSON input file is the values one per line (a stream of documents in a non-YAML format)
+var c10JSONAlphabet = []string{`{"a": 1, "b": "x"}`, `{"b": "y", "a": 2}`, `{"a": 3}`, `5`, `[1, 2]`, `"hello"`}
+
+var c10JSONExprs = []string{".", ".a", "select(.a)", "length", "document_index", "file_index", `{"doc": document_index, "file": file_index}`, "select(document_index == 1)", `select(kind == "scalar")`}
 
 type c10Case struct {
 	Files [][]int  `json:"files"` // per file: indices into the document alphabet
 	Expr  string   `json:"expr"`
 	Flags []string `json:"flags"`
 	Mode  string   `json:"mode"` // eval | eval-all-single
+	JSON  bool     `json:"json_input,omitempty"`
 }
 
 func c10FileText(docs []int) string {
@@ -127,7 +135,15 @@ func c10Check(work string, cs c10Case) (kind, detail, outcome string) {
 	var docs []pos
 	for fi, f := range cs.Files {
 		name := fmt.Sprintf("f%d.yml", fi)
-		os.WriteFile(filepath.Join(dir, name), []byte(c10FileText(f)), 0o644)
+		text := c10FileText(f)
+		if cs.JSON {
+			name = fmt.Sprintf("f%d.json", fi)
+			text = ""
+			for _, a := range f {
+				text += c10JSONAlphabet[a] + "\n"
+			}
+		}
+		os.WriteFile(filepath.Join(dir, name), []byte(text), 0o644)
 		names = append(names, name)
 		for di, a := range f {
 			docs = append(docs, pos{fi, di, a})
@@ -138,6 +154,9 @@ func c10Check(work string, cs c10Case) (kind, detail, outcome string) {
 		args = append(args, "ea")
 	}
 	args = append(args, cs.Flags...)
+	if cs.JSON {
+		args = append(args, "-p=json", "-o=yaml")
+	}
 	args = append(args, cs.Expr)
 	args = append(args, names...)
 	out, serr, exit, err := c10RunYq(dir, args...)
@@ -153,6 +172,7 @@ func c10Check(work string, cs c10Case) (kind, detail, outcome string) {
 	}
 	// expected chunks, one per document
 	var chunks [][]string
+	var soloLead []int // separator lines the document's own solo output starts with (an explicit document start is kept)
 	if len(docs) == 0 {
 		// no document at all: the expression is evaluated once on null (documented fallback)
 		solo, _, sexit, _ := c10RunYq(dir, "-n", cs.Expr)
@@ -173,14 +193,35 @@ func c10Check(work string, cs c10Case) (kind, detail, outcome string) {
 			want = fmt.Sprintf("%d\n", p.file)
 		case "filename":
 			want = fmt.Sprintf("f%d.yml\n", p.file)
+			if cs.JSON {
+				want = fmt.Sprintf("f%d.json\n", p.file)
+			}
 		case `{"doc": document_index, "file": file_index}`:
 			want = fmt.Sprintf("doc: %d\nfile: %d\n", p.doc, p.file)
 		default:
-			key := fmt.Sprintf("%s\x00%d\x00%v", cs.Expr, p.alpha, cs.Flags)
+			soloExpr := cs.Expr
+			switch cs.Expr {
+			case "select(document_index == 1)":
+				soloExpr = "."
+				if p.doc != 1 {
+					soloExpr = "select(false)"
+				}
+			case "select(file_index == 1)":
+				soloExpr = "."
+				if p.file != 1 {
+					soloExpr = "select(false)"
+				}
+			}
+			key := fmt.Sprintf("%s\x00%d\x00%v\x00%v", soloExpr, p.alpha, cs.Flags, cs.JSON)
 			solo, ok := c10SoloCache[key]
 			if !ok {
-				os.WriteFile(filepath.Join(dir, "solo.yml"), []byte(c10Alphabet[p.alpha].Text), 0o644)
-				soloArgs := append(append([]string{}, cs.Flags...), cs.Expr, "solo.yml")
+				soloArgs := append(append([]string{}, cs.Flags...), soloExpr, "solo.yml")
+				if cs.JSON {
+					os.WriteFile(filepath.Join(dir, "solo.json"), []byte(c10JSONAlphabet[p.alpha]+"\n"), 0o644)
+					soloArgs = append(append([]string{}, cs.Flags...), "-p=json", "-o=yaml", soloExpr, "solo.json")
+				} else {
+					os.WriteFile(filepath.Join(dir, "solo.yml"), []byte(c10Alphabet[p.alpha].Text), 0o644)
+				}
 				so, _, sexit, _ := c10RunYq(dir, soloArgs...)
 				if sexit != 0 {
 					so = "\x00ERROR"
@@ -198,6 +239,14 @@ func c10Check(work string, cs c10Case) (kind, detail, outcome string) {
 			break
 		}
 		chunks = append(chunks, linesNoSep(want))
+		lead := 0
+		for _, l := range strings.Split(want, "\n") {
+			if l != "---" {
+				break
+			}
+			lead++
+		}
+		soloLead = append(soloLead, lead)
 	}
 	failedSolo := len(chunks) < len(docs)
 	if !failedSolo && exit != 0 {
@@ -230,10 +279,20 @@ func c10Check(work string, cs c10Case) (kind, detail, outcome string) {
 			}
 			i++
 		}
+		if !prevPrinted {
+			// nothing was printed yet: no separator is due, except the explicit start marker a first-in-file document prints on its own
+			allowed := 0
+			if docs[ci].doc == 0 || cs.JSON {
+				allowed = soloLead[ci]
+			}
+			if seps > allowed {
+				return "separator", fmt.Sprintf("%d separator lines before the first printed document (#%d), whose own output starts with %d\nfull output:\n%s", seps, ci, soloLead[ci], out), outcome
+			}
+		}
 		if prevPrinted && !noSep && seps != 1 {
 			return "separator", fmt.Sprintf("%d separator lines between the outputs of two consecutive documents (#%d and the one before), expected exactly 1\nfull output:\n%s", seps, ci, out), outcome
 		}
-		if noSep && seps != 0 && !c10Alphabet[docs[ci].alpha].Lead {
+		if noSep && seps != 0 && (cs.JSON || !c10Alphabet[docs[ci].alpha].Lead) {
 			return "separator", fmt.Sprintf("-N given but %d separator lines printed before document #%d\nfull output:\n%s", seps, ci, out), outcome
 		}
 		prevPrinted = true
@@ -293,40 +352,49 @@ func c10Run(c *fw.Ctx) error {
 		maxFiles, maxDocs = 2, 3
 	}
 	hist := c10Histories(maxFiles, maxDocs)
-	c.Res.Bound = fmt.Sprintf("%d histories (<= %d files x 0..%d documents over a %d-document alphabet, incl. empty files) x %d expressions x {default, -N} on the real binary, plus eval vs eval-all on every single-document input", len(hist), maxFiles, maxDocs, len(c10Alphabet), len(c10Exprs))
+	c.Res.Bound = fmt.Sprintf("%d histories (<= %d files x 0..%d documents over a %d-document alphabet, incl. empty files) x %d expressions x {default, -N} on the real binary; the same histories as JSON value streams (-p json -o yaml) x 9 expressions; plus eval vs eval-all on every single-document input", len(hist), maxFiles, maxDocs, len(c10Alphabet), len(c10Exprs))
 	var idx int64
-	for hi, h := range hist {
-		for _, e := range c10Exprs {
-			for _, flags := range [][]string{nil, {"-N"}} {
-				idx++
-				if !c.Mine(idx) {
-					continue
-				}
-				if c.Expired() {
-					return nil
-				}
-				cs := c10Case{Files: h, Expr: e, Flags: flags, Mode: "eval"}
-				kind, detail, outcome := c10Check(work, cs)
-				c.Eval(1)
-				c.Validated(1)
-				nd := 0
-				for _, f := range h {
-					nd += len(f)
-				}
-				key := fmt.Sprintf("%v|%s|%v", h, e, flags)
-				c.Outcome(key + outcome)
-				if nd >= 2 {
-					c.Nontrivial(key)
-				}
-				if kind != "" {
-					c.Count("mismatch_"+kind, 1)
-					sig := kind + "/" + e
-					if len(flags) > 0 {
-						sig += "/-N"
+	for _, jsonIn := range []bool{false, true} {
+		exprs := c10Exprs
+		if jsonIn {
+			exprs = c10JSONExprs
+		}
+		for hi, h := range hist {
+			for _, e := range exprs {
+				for _, flags := range [][]string{nil, {"-N"}} {
+					idx++
+					if !c.Mine(idx) {
+						continue
 					}
-					c.Violation(sig, int64(nd)*1e6+int64(hi), cs, fmt.Sprintf("yq %s %q on files %v: %s", strings.Join(flags, " "), e, c10Describe(h), detail))
-				} else if idx%4001 == 5 {
-					c.Sample(map[string]interface{}{"files": c10Describe(h), "expr": e, "flags": flags, "outcome": outcome})
+					if c.Expired() {
+						return nil
+					}
+					cs := c10Case{Files: h, Expr: e, Flags: flags, Mode: "eval", JSON: jsonIn}
+					kind, detail, outcome := c10Check(work, cs)
+					c.Eval(1)
+					c.Validated(1)
+					nd := 0
+					for _, f := range h {
+						nd += len(f)
+					}
+					key := fmt.Sprintf("%v|%s|%v|%v", h, e, flags, jsonIn)
+					c.Outcome(key + outcome)
+					if nd >= 2 {
+						c.Nontrivial(key)
+					}
+					if kind != "" {
+						c.Count("mismatch_"+kind, 1)
+						sig := kind + "/" + e
+						if jsonIn {
+							sig = kind + "/json-input/" + e
+						}
+						if len(flags) > 0 {
+							sig += "/-N"
+						}
+						c.Violation(sig, int64(nd)*1e6+int64(hi), cs, fmt.Sprintf("yq %s %q on files %v: %s", strings.Join(flags, " "), e, c10Describe(h), detail))
+					} else if idx%4001 == 5 {
+						c.Sample(map[string]interface{}{"files": c10Describe(h), "expr": e, "flags": flags, "outcome": outcome})
+					}
 				}
 			}
 		}
@@ -392,7 +460,7 @@ func init() {
 	registerLater(func() {
 		fw.Register(&fw.Check{
 			ID: "C10", Level: "model_checking",
-			Rule: "every history of <= F files each with 0..K documents over the document alphabet (maps with/without leading comment or explicit start marker, scalars, sequence; empty files) x 18 document-local expressions (incl. in-place updates of a literal owned by the shared parsed tree) x {default, -N}, run by the real binary; " +
+			Rule: "every history of <= F files each with 0..K documents over the document alphabet (maps with/without leading comment or explicit start marker, scalars, sequence; empty files; also as streams of JSON values read with -p json) x 22 document-local expressions (incl. filters that print nothing for some documents, by position and by kind) (incl. in-place updates of a literal owned by the shared parsed tree) x {default, -N}, run by the real binary; " +
 				"oracle: the output is, in order, the solo output of every document (same expression on a one-document file) with exactly one separator line between consecutive printing documents (none required under -N), evaluation stops at the first document that fails on its own, " +
 				"document_index/file_index/filename equal the true position, zero documents = `yq -n`; eval = eval-all on single-document inputs; non-trivial = history with at least two documents",
 			Assumptions: []string{"comment-only and empty *documents* are not generated here (YAML itself does not count them as documents; the identity on such streams is C05's subject); empty files are"},
